@@ -43,6 +43,18 @@ CONSTANTS
 """
 
 
+# option sets that leave the rendering of a valid program as it is (they concern data- spelled statements, the moment an
+# invalid expression is reported, byte-string values, what is kept for debugging, names nobody uses, comments): every
+# program is replayed once more under one of them
+NEUTRAL_OPTIONS = [
+    {"enable_data_attributes": True},
+    {"strict": False},
+    {"encoding": "utf-8", "keep_source": True, "keep_body": True},
+    {"extra_builtins": {"zz_unused": 1, "zz_more": str}, "enable_comment_interpolation": False},
+    {"enable_data_attributes": True, "strict": False, "encoding": "latin-1", "extra_builtins": {"zz_unused": 1}},
+]
+
+
 def workdir(tag):
     os.makedirs(BUILD, exist_ok=True)
     return tempfile.mkdtemp(prefix=tag + "_", dir=BUILD)
@@ -124,6 +136,24 @@ def _shard(job):
                                                       prog=p))
                     elif not ok:
                         out["mismatches"].append(None)
+            # once more under an option set that must not matter
+            base_opts = dict(p.get("cfg") or options or {})
+            neutral = dict(NEUTRAL_OPTIONS[(pid + sid) % len(NEUTRAL_OPTIONS)])
+            neutral.update(base_opts)
+            rp = Replayer(p, names, perms[0], options=neutral)
+            out["compiled"] += 1
+            for rec in recs:
+                ok, why = rp.run(rec)
+                out["replays"] += 1
+                if not ok and why.startswith("KNOWN["):
+                    tag = why[6:why.index("]")]
+                    out.setdefault("known", {}).setdefault(tag, dict(n=0, source=rp.c.source, why=why))["n"] += 1
+                elif not ok and len(out["mismatches"]) < max_report:
+                    out["mismatches"].append(dict(fam=p.get("fam"), source=rp.c.source, perm=perms[0],
+                                                  why="(options %s) %s" % (sorted(k for k in neutral if k not in base_opts), why),
+                                                  log=rec["log"], res=rec["res"], exc=rec.get("exc"), prog=p))
+                elif not ok:
+                    out["mismatches"].append(None)
                 if not out["samples"] and recs:
                     out["samples"].append(dict(source=rp.c.source, script=[(e.get("k"), e.get("r")) for e in recs[-1]["log"] if e["ev"] == "call"],
                                                result=recs[-1]["res"]))
